@@ -5,5 +5,5 @@ From Verif Require Import Lib.Base Lib.Dyadic Model.Native.
 Extraction "model.ml"
   of_bits canon
   check_native_func init_native_funcs resolve_call resolver_index
-  to_native from_native call_native run
+  to_native from_native call_native run run_history
   v_boolean v_num v_str to_f32 z_to_f64 to_int to_uint sort_names.
